@@ -197,6 +197,9 @@ def run(step, repo, tier='quick', seed=0):
             if r['result'] == 'TOOL' or unwind_fail:
                 res['tool_errors'].append('harness %s: %s %s' % (m['name'], r['note'], unwind_fail[:1]))
                 continue
+            if r['result'] != 'SUCCESSFUL' and not r['failed'] and m.get('expect', 'pass') == 'pass':
+                res['tool_errors'].append('harness %s ended with %s but no failed check was reported (solver killed / crashed / out of memory?)' % (m['name'], r['result']))
+                continue
             ok = False
             if m.get('expect', 'pass') == 'pass':
                 ok = r['result'] == 'SUCCESSFUL' and not r['failed'] and r['covers'] is not None and r['covers'][0] == r['covers'][1] and r['covers'][1] > 0
